@@ -148,6 +148,12 @@ func fileContent(format, what string) []byte {
 		return corpus(format, "longline")[0]
 	case "huge", "multimember": // ~300 KiB: many OS-level reads and several gzip blocks
 		return bytes.Repeat(corpus(format, "large")[0], 32)
+	case "error-middle": // a malformed record in the middle, well-formed ones after it
+		bad := map[string]string{"fasta": ">a\nAC\n>b\nGT\n", "fastq": "@a\nA\n+\nI\n@b\nAC\n+\nI\n@c\nA\n+\nI\n",
+			"sam":  "q0\t0\tr\t1\t9\t1M\t*\t0\t0\tA\tI\nq1\tx\tr\t1\t9\t1M\t*\t0\t0\tA\tI\nq2\t0\tr\t1\t9\t1M\t*\t0\t0\tA\tI\nshort\t1\n@CO\tlate header\nq3\t0\tr\t1\t9\t1M\t*\t0\t0\tA\tI\tXX:i:y\nq4\t0\tr\t1\t9\t1M\t*\t0\t0\tA\tI\n",
+			"samh": "@h\nq0\t0\tr\t1\t9\t1M\t*\t0\t0\tA\tI\nq1\t1\n@h2\nq2\t0\tr\t1\t9\t1M\t*\t0\t0\tA\tI\n",
+			"bed":  "a\t0\t1\nb\tx\t2\nc\t3\t4\n", "newick": "(a,b);(c;(d,e);"}[format]
+		return []byte(bad)
 	case "error":
 		bad := map[string]string{"fasta": "", "fastq": "@a\nA\n+\nI\n@b\nAC\n+\nI\n", "sam": "q\t0\tr\t1\t9\t1M\t*\t0\t0\tA\tI\nq\tx\n", "samh": "@h\nq\t1\n",
 			"bed": "a\t0\t1\nb\tx\t2\n", "newick": "(a,b);(c"}[format]
@@ -251,7 +257,7 @@ func runC06(r *core.Run) {
 	core.Clause(r, "file-grid", core.Opts{Rule: "every format (SAM: File and FileHeader) x {plain, .gz written with compress/gzip} x content {empty file, one record, many records, a file whose decode ends in an error item, the 9 KiB file, the long-line file, a ~300 KiB file} plus a multi-member .gz: File(path) yields what Reader yields on the bytes; a missing path yields exactly one item, an error; non-trivial = all"},
 		func(emit func(c06File) bool) {
 			for _, f := range formats {
-				for _, what := range []string{"empty", "one", "many", "error", "large", "longline", "huge", "missing"} {
+				for _, what := range []string{"empty", "one", "many", "error", "error-middle", "large", "longline", "huge", "missing"} {
 					for _, gz := range []bool{false, true} {
 						emit(c06File{f.Name, what, gz})
 					}
